@@ -115,10 +115,19 @@ func (s *ftpService) SetChannel(c pushers.Channel) {
 
 func (s *ftpService) Handle(ctx context.Context, conn net.Conn) error {
 
-	ftpConn := s.server.newConn(conn, s.driver, s.recv)
+	// every connection gets its own command channel and its own event pump: with a
+	// channel shared by all connections a pump reported other connections' commands
+	// under its own address, and no pump ever ended
+	recv := make(chan string)
+
+	ftpConn := s.server.newConn(conn, s.driver, recv)
+
+	done := make(chan struct{})
 
 	go func() {
-		for msg := range s.recv {
+		defer close(done)
+
+		for msg := range recv {
 			s.c.Send(event.New(
 				services.EventOptions,
 				event.Category("ftp"),
@@ -131,6 +140,9 @@ func (s *ftpService) Handle(ctx context.Context, conn net.Conn) error {
 	}()
 
 	ftpConn.Serve()
+
+	close(recv)
+	<-done
 
 	return nil
 }
